@@ -265,6 +265,8 @@ def r5(ctx):
                 if e.kind == "call" and e.name.endswith("::parse") and p.state.discr.get(e.result) == 1:
                     bad_parse = True
             if not (bad_utf8 or bad_parse):
+                if err_name(p.ret) == "ArithOnNonNumeric":
+                    rep.bad("%s:non-numeric-without-failed-conversion" % nm, "incr/decr answers 'non-numeric value' on a path where neither the UTF-8 check nor the u64 parse failed (an extra rejection in front of the parser: a value that IS a decimal u64 — e.g. zero-padded beyond 20 digits — is refused)", b.loc())
                 continue
             sets = [e for e in p.events if e.kind == "call" and e.name.startswith(CACHE + "::") and e.name.split("::")[-1] in ("set", "delete", "remove")]
             ok = err_name(p.ret) == "ArithOnNonNumeric" and not sets
